@@ -55,9 +55,9 @@ class C12(Prop):
             single = [n for n in cur_names if n not in dup]
             if dup:
                 # columns whose name is carried twice cannot be referenced by name (legitimately ambiguous): expressions,
-                # renames and key lists use the other columns only; union needs a table with unique names
-                if op in ('union', 'unionByName'):
-                    op = 'withColumn'
+                # renames may name them (both copies are renamed), key lists use the other columns only; unionByName needs unique names
+                if op == 'unionByName':
+                    op = 'union'        # by name needs unique names; the positional union does not
             if repeated and step == 0:
                 picks = [rng.randrange(len(cur_names)) for _ in range(rng.randint(1, 3))]
                 picks.insert(rng.randint(0, len(picks)), rng.choice(picks))
@@ -102,7 +102,7 @@ class C12(Prop):
                 case['ops'].append({'op': 'drop', 'names': d})
                 cur_names, cur_types = [cur_names[i] for i in keep], [cur_types[i] for i in keep]
             elif op == 'rename':
-                old = rng.choice(single + ['missing'])
+                old = rng.choice(cur_names + ['missing'])      # a name carried twice renames both columns
                 new = new_name()
                 case['ops'].append({'op': 'rename', 'old': old, 'new': new})
                 cur_names = [new if n == old else n for n in cur_names]
